@@ -536,3 +536,75 @@ func (p *Prog) EnumConsts(pkgRel, typeName string) map[int64]string {
 	}
 	return out
 }
+
+// UsesGuarded: in every repository function calling callee, the value result #valIdx of the call is used
+// (as call argument/receiver, sent, stored to non-local memory) only on paths where the call's error is nil
+// (or, when alt is non-nil, alt holds).
+func (c *Check) UsesGuarded(rule, constructPrefix string, callee Callee, valIdx int, fns []*ssa.Function, alt func(s *State, use ssa.Instruction, val ssa.Value) bool) (sites int) {
+	for _, fn := range fns {
+		calls := Calls(fn, callee)
+		for _, call := range calls {
+			sites++
+			val := ErrResult(call, valIdx)
+			errv := ErrResult(call, -1)
+			construct := fmt.Sprintf("%s in %s", constructPrefix, FuncName(fn))
+			if val == nil {
+				c.OK(rule, construct, fn, 1, "value result is never used")
+				continue
+			}
+			uses := 0
+			var bad *State
+			var badAt ssa.Instruction
+			ex := &Explorer{P: c.P}
+			vkey := c.P.Key(val)
+			ex.OnInstr = func(s *State, ins ssa.Instruction) bool {
+				isUse := false
+				switch x := ins.(type) {
+				case *ssa.Call, *ssa.Go, *ssa.Defer:
+					cc := x.(ssa.CallInstruction).Common()
+					for _, a := range CallArgs(cc) {
+						if s.Key(a) == vkey {
+							isUse = true
+						}
+					}
+				case *ssa.Send:
+					isUse = s.Key(x.X) == vkey
+				case *ssa.MapUpdate:
+					isUse = s.Key(x.Value) == vkey
+				case *ssa.Store:
+					if s.Key(x.Val) == vkey {
+						if _, local := x.Addr.(*ssa.Alloc); !local {
+							if _, fv := x.Addr.(*ssa.FreeVar); !fv {
+								isUse = true
+							}
+						}
+					}
+				}
+				if !isUse {
+					return true
+				}
+				uses++
+				okk := errv != nil && s.IsNil(errv)
+				if !okk && alt != nil {
+					okk = alt(s, ins, val)
+				}
+				if !okk && bad == nil {
+					bad, badAt = s.clone(), ins
+				}
+				return true
+			}
+			ex.Run(fn, nil)
+			c.Touch(fn)
+			switch {
+			case ex.Truncated:
+				c.Undecided(rule, construct, fn, "state budget exhausted")
+			case bad != nil:
+				c.Fail(rule, construct, fn, c.P.Pos(badAt.Pos()), ex.States, "the value result is used on a path where the call's error is not known nil", bad.Witness())
+			default:
+				c.OK(rule, construct, fn, ex.States, fmt.Sprintf("%d use arrivals, all behind err==nil", uses))
+			}
+		}
+	}
+	c.Sites(sites)
+	return sites
+}
